@@ -49,6 +49,18 @@ CHECKS = {
    technique="TLA+ spec SyncFaults.tla (fault kind x request index x client mode x trigger x segmentation, then a clean retry) model-checked by TLC; every behaviour replayed on a real Subscriber through a fault-injecting proxy in front of a real Publisher (behaviour replay conformance); pinned noPath latch refuted",
    text="TLC checks for every single fault (HTTP 400/500/403/404, connection reset, short write, stall past the client timeout, caller cancellation, hook FailSync, and the body classes of C02) at every request index of explicit and announce-triggered, segmented and unsegmented syncs in both client modes that latest-synced and the notification stream are as required after the failure, that verified blocks stay, that an announced CID can be announced again, and that the clean retry ends where a fault-free run ends (pairs of faulty syncs in the thorough tier); each behaviour is executed against the real Subscriber and Publisher through the proxy, comparing result, hook calls, stored blocks, store audit, latest-synced and notifications after every sync.",
    note="Publishers with one address; resets that net/http retries transparently are counted as tolerated; stream-transport (libp2p stream) client not exercised."),
+ "C08": dict(level="model_checking", design="6/C08", engine="tlc+harness",
+   technique="TLA+ spec Subscriber.tla (receiver cache/out channel, watcher swap+spawn, per-announcement goroutines with asyncMutex/semaphore/syncMutex, explicit syncs) model-checked by TLC; real Subscriber driven through seeded random schedules by a gate scheduler over yield hooks, every recorded trace validated by TLC against SubscriberTrace.tla (trace validation)",
+   text="TLC checks exhaustively on the model (2-3 publishers x 2-3 ads, semaphore 1-2) the quiescence clause (latest = last announced head, every advertisement reported exactly once), the semaphore bound and lock exclusivity for announce-only histories, and exhibits the overlap findings when an explicit sync is mixed in. The real Subscriber runs under the gate scheduler: exactly one goroutine runs between hooks, so the recorded event order is the execution order; TLC replays each trace on the abstract state and rejects any step the specification does not allow (a lock taken while held, more syncs than the semaphore allows, a taken message that is not the last one swapped in, a block-hook call outside the publisher's sync lock) and checks the end-of-run quiescence clause. Runs mixed with explicit syncs of the same publishers are validated the same way; their exactly-once / final-latest / order violations are classified structurally as the known findings.",
+   note="Schedules explored are those reachable by parking goroutines at the hooks with real publishers (seeded random choice, 160 scenarios per family in quick); known findings F-C08 (explicit sync overlapping / preceding a pending announcement) are open and reported as KNOWN-FINDING."),
+ "C14": dict(level="model_checking", design="6/C14", engine="tlc+harness",
+   technique="Trace validation by TLC (SubscriberTrace.tla: distributor list, pending notifications per publisher, expected per-listener sequences) of seeded gate-scheduled runs of a real Subscriber with listeners registered / cancelled at random points and never read until the end; Subscriber.tla model-checked for the producers",
+   text="Each run registers two listeners (one is cancelled) at random points of announcement bursts and syncs of 1-3 publishers; the gate scheduler interleaves the registration and cancellation rendezvous, the distributor's steps and the syncs' record-then-notify steps one goroutine at a time. TLC replays the trace: every notification the distributor takes must be the oldest pending one of its publisher with the CID recorded as latest and the block count of that sync, it is appended to the expected sequence of exactly the listeners in the distributor's list, and at the end each listener's received sequence must equal its expected sequence and its channel must be closed. Listeners do not read during the run, so a blocked sync or distributor shows as a scheduler hang.",
+   note="Order under explicit syncs overlapping announce-triggered ones is part of C08's open findings and excluded here."),
+ "C15": dict(level="model_checking", design="6/C15", engine="tlc+harness",
+   technique="Trace validation by TLC (SubscriberTrace.tla close clauses) of seeded gate-scheduled runs in which 1-2 concurrent Close calls start at random points of explicit and announce-triggered syncs; followed by API-after-close calls under a watchdog and a goroutine-leak scan",
+   text="The gate scheduler starts one or two Close calls at a random step of runs with announce-triggered syncs, explicit syncs (of a separate publisher) and a listener, and interleaves the steps of doClose with everything else. TLC rejects a trace in which a Close returns while a publisher's sync or async lock is still held, or in which a block hook, a lock acquisition or a notification delivery follows a returned Close; a step that never completes is a scheduler hang. After the run every entry point (SyncAdChain, SyncEntries, Announce, OnSyncFinished, GetLatestSync, RemoveHandler, Close) must return within 3 s, a listener registered after Close must get a closed channel, and no goroutine with a Subscriber/handler/Receiver frame may remain.",
+   note="Shutdown interleavings are validated on recorded traces (seeded random schedules), not enumerated exhaustively; store writes after Close are covered through the block-hook / lock events (a write happens only inside a sync)."),
 }
 PENDING = {
 }
